@@ -1030,8 +1030,17 @@ func run(c *vf.Ctx) {
 		}
 	}
 	for _, kind := range classes["link-post"] {
-		for i := 0; i < lper; i++ {
-			out, detail, in := linkPost(rng, kind, genuine)
+		n := lper
+		if kind == "peer-stops-reading" {
+			n = c.Pick(3, 40)
+		}
+		for i := 0; i < n; i++ {
+			var out, detail, in string
+			if kind == "peer-stops-reading" {
+				out, detail, in = stalledPeer(rng)
+			} else {
+				out, detail, in = linkPost(rng, kind, genuine)
+			}
 			record(obs{Stage: "link-post", Kind: kind, Outcome: out, Alive: true, Detail: firstLine(detail), Input: in})
 			if out == "panic" || out == "stalled" {
 				c.Logf("link-post/%s: %s: %s", kind, out, firstLines(detail, 12))
